@@ -195,8 +195,10 @@ def run_e1(sc, scratch=None, value_check=True):
 
     # patch pull recording of stubs: compare online, in actual request order
     for ci, comp in enumerate(comps):
-        if isinstance(comp, (SimComp, SimPull, SimSink)):
+        if isinstance(comp, (SimComp, SimPull, SimSink)) or isinstance(getattr(comp, "pulls", None), dict):
             for ii, i in enumerate(sc["components"][ci]["inputs"]):
+                if i["name"] not in comp.pulls:
+                    continue
                 lst = _Hooked(guard(lambda item, ci=ci, ii=ii: check_value(
                     ci, ii, item[0], item[1], item[2], initial=item[0] == "init")))
                 comp.pulls[i["name"]] = lst
@@ -270,7 +272,7 @@ def run_e1(sc, scratch=None, value_check=True):
                 v("lifecycle-order", "status", f"{c['name']} ends in {comps[ci].status}")
         for i in sims:
             c = sc["components"][i]
-            finished = c.get("finish_at") is not None and comps[i].k >= c["finish_at"]
+            finished = c.get("finish_at") is not None and getattr(comps[i], "k", 0) >= c["finish_at"]
             if tick(comps[i].time) < end and not finished:
                 v("end-not-reached", "c03", f"{c['name']} ends at {tick(comps[i].time)} < end {end}")
         cnt = {}
